@@ -22,6 +22,8 @@ pub struct MarkerFiller {
 }
 
 pub const MARKER_ATOM_KINDS: usize = 5;
+/// Atom kinds of the route-A sweeps that vary atoms (5 is sugar and needs the runner).
+pub const ROUTE_A_KINDS: [usize; 6] = [0, 1, 2, 3, 4, 6];
 /// Header forms of a `for`: declaration, assignment, declaration of two names with initialisers.
 pub const FOR_FORMS: usize = 3;
 
@@ -60,6 +62,15 @@ impl Filler for MarkerFiller {
                     vec![Ev::Decl(format!("var {a}")), Ev::Assign(format!("{a} = x")), Ev::Decl(format!("var {b}")), Ev::Assign(format!("{b} = {a} + 1"))],
                 )
                 .with_idents(vec![(&a, Role::Decl), ("x", Role::Read), (&b, Role::Decl), (&a, Role::Read)])
+            }
+            6 => {
+                // A declaration without initialiser, wherever the skeleton puts it (the compiler
+                // wants signals outside loops; the analyser accepts them anywhere).
+                if self.is_function {
+                    Atom::new(&format!("var u{k}"), vec![Ev::Decl(format!("var u{k}"))]).with_idents(vec![(&format!("u{k}"), Role::Decl)])
+                } else {
+                    Atom::new(&format!("signal t{k}"), vec![Ev::Decl(format!("signal t{k}"))])
+                }
             }
             5 => {
                 // Sugar (templates through the real runner only): a tuple declaration with
